@@ -282,12 +282,45 @@ fn c04_cli_clone() {
         for (pin, must_pass) in [(sum.clone(), true), (sum[..2].to_string(), false), (sum[..64].to_string(), false), (String::new(), false), (wrong, false)] {
             let (ok, out) = clone_cli(&dir, &p, &["--verify-header", &pin], "pin");
             if ok && !must_pass { witness("C04", "clone proceeds although the given --verify-header value is not the archive's header checksum", format!("pin {:?} (checksum {})", pin, sum)); }
+            // "the clone proceeds only if ..": with a pin that does not match, nothing may have been written at all
+            if !must_pass && out.is_some() { witness("C04", "an output file was written although the given --verify-header value is not the archive's header checksum", format!("pin {:?} (checksum {}), exit ok={}", pin, sum, ok)); }
             if must_pass && !(ok && out.as_deref() == Some(&source[..])) { witness("C04", "clone refuses the correct --verify-header value", format!("{}", sum)); }
             cases += 1;
         }
         // --verify-output on a good archive passes
         let (ok, _) = clone_cli(&dir, &p, &["--verify-output"], "vo");
         if !ok { witness("C04", "clone --verify-output fails on an intact archive", cname.into()); }
+    }
+    println!("COMPANION-OK cases={}", cases);
+}
+
+/// C11, schedule-sensitive: the first chunk is expensive to compress, the following ones trivial, several compression tasks
+/// in flight -- stored chunks must still lie back-to-back in descriptor (= first occurrence) order
+#[test]
+fn c11_pipeline_order() {
+    let dir = Tmp::new("c11order");
+    const CHUNK: usize = 192 * 1024;
+    let mut rng = Rng(0xc11_0bde_0000_0003);
+    // a "wordy" chunk: words over a small alphabet (compressible, but slow at a high brotli level)
+    let mut source: Vec<u8> = Vec::with_capacity(8 * CHUNK);
+    while source.len() < CHUNK { let wl = 2 + (rng.next() % 9) as usize; for _ in 0..wl { source.push(b'a' + (rng.next() % 26) as u8); } source.push(b' '); }
+    source.truncate(CHUNK);
+    for i in 1..8u8 { source.extend(std::iter::repeat(i).take(CHUNK)); }
+    let fixed: Vec<Vec<u8>> = source.chunks(CHUNK).map(|c| c.to_vec()).collect();
+    let src = dir.path("order.src");
+    std::fs::write(&src, &source).unwrap();
+    let mut cases = 0;
+    let rt = tokio::runtime::Builder::new_multi_thread().worker_threads(2).enable_all().build().unwrap();
+    for round in 0..3 {
+        let opts = bitar::api::compress::CreateArchiveOptions { chunker_config: bitar::chunker::Config::FixedSize(CHUNK), chunk_hash_length: 64,
+            compression: Some(bitar::Compression::brotli(9).unwrap()), num_chunk_buffers: 4, ..Default::default() };
+        let mut out: Vec<u8> = vec![];
+        rt.block_on(bitar::api::compress::create_archive(&source[..], &mut out, &opts)).unwrap();
+        judge("C11", &format!("library writer, slow first chunk, 4 buffers, round {}", round), &out, &source, Some(fixed.clone()), 64, Some([0, 0, CHUNK as u64, 0, 64, 2]), (3, 9));
+        let cs = CHUNK.to_string();
+        let archive = compress_cli(&dir, &format!("order-{}", round), &src, &["--fixed-size", &cs, "--compression", "brotli", "--compression-level", "9", "--buffered-chunks", "4"]).unwrap();
+        judge("C11", &format!("CLI writer, slow first chunk, 4 buffers, round {}", round), &archive, &source, Some(fixed.clone()), 64, Some([0, 0, CHUNK as u64, 0, 64, 2]), (3, 9));
+        cases += 2;
     }
     println!("COMPANION-OK cases={}", cases);
 }
